@@ -71,6 +71,12 @@ void DependencyInfoParser::parse() {
   while (cur != end) {
     const char* opcodeStart = cur;
     auto opcode = Opcode(*cur++);
+    // The final null byte may itself be consumed as an opcode, in which case
+    // there is no operand (or terminator) left to scan.
+    if (cur == end) {
+      actions.error("missing operand", opcodeStart - data.data());
+      break;
+    }
     const char* operandStart = cur;
     while (*cur != '\0') {
       ++cur;
